@@ -23,7 +23,8 @@ try:
     tail = [l for l in t.stdout.strip().splitlines() if "passed" in l or "failed" in l]
     meta["suite_with_mutation"] = tail[-1] if tail else t.stdout[-300:]
     meta["confirmed"] = (meta["applies"] and r0.returncode == 0 and r1.returncode != 0
-                         and "192 passed" in meta["suite_with_mutation"] and "failed" not in meta["suite_with_mutation"])
+                         and "192 passed" in meta["suite_with_mutation"]
+                         and " failed" not in meta["suite_with_mutation"] and " error" not in meta["suite_with_mutation"])
 finally:
     subprocess.run(["git", "-C", "/repo", "worktree", "remove", "--force", wt], capture_output=True)
 notes = os.path.join(src, "notes.md")
